@@ -216,22 +216,59 @@ fn check_viz(t: &mut Tape, stats: &mut Stats) -> Vec<Failure> {
 }
 
 fn fuzz_campaign(ctx: &Ctx, target: &str, seconds: u64) {
-    // thorough tier only: coverage-guided campaign; a crash artifact becomes a violation
+    // thorough tier only: coverage-guided campaign. The fuzz build is instrumented (ASan, debug
+    // assertions): its stack frames are several times larger than those of the tool as shipped, so
+    // a deeply nested input can exhaust the stack there and nowhere else. A crash artifact is
+    // therefore replayed against the real binary, and only what the real binary does counts:
+    // an exit status other than 0 or 1 is a violation, anything else is recorded and dropped.
     for (bytes, log) in crate::fuzz::campaign(ctx, target, seconds, &[], "/repo/tests/fixtures") {
         let text = String::from_utf8_lossy(&bytes).to_string();
-        let fails = match target {
-            "fz_file" => {
-                let mut st = Stats::default();
-                check_files(&[("src/lib.rs".to_string(), text.clone())], &["engine=libfuzzer".to_string()], json!({"fuzz_target": target, "input": text}), &mut st)
+        let source = match target {
+            "fz_file" => text.clone(),
+            _ => {
+                // the same source the target builds, plus a command that reaches the struct
+                let mut parts = text.splitn(3, '\u{1}');
+                let a = parts.next().unwrap_or("");
+                let b = parts.next().unwrap_or("");
+                let c = parts.next().unwrap_or("i32");
+                format!(
+                    "use serde::{{Deserialize, Serialize}};\n\n#[derive(Serialize, Deserialize)]\n#[serde({b})]\npub struct S {{\n    #[validate({a})]\n    #[serde({b})]\n    pub f: {c},\n    #[validate(length(min = 1, message = {lit}))]\n    pub g: String,\n}}\n\n#[tauri::command]\npub fn take(s: S) {{}}\n",
+                    a = a,
+                    b = b,
+                    c = c,
+                    lit = crate::gen::rust::rust_str_lit(a)
+                )
             }
-            _ => vec![Failure::new("fuzz_crash").tag("engine=libfuzzer").tag(format!("target={}", target)).observed(crate::run::truncate(&log, 600)).expected("no crash").case(json!({"fuzz_target": target, "input": text}))],
         };
-        ctx.single(&format!("c15.fuzz.{}", target), json!({"fuzz_target": target, "input": text}), |_| fails);
+        let mut fails = vec![];
+        for mode in ["none", "zod"] {
+            let dir = tool::fresh_dir("c15fz");
+            tool::write_project(&dir.join("proj"), &[("src/lib.rs".to_string(), source.clone())]);
+            let o = tool::run_cli(&["generate", "-p", "proj", "-o", "out", "-v", mode], &dir);
+            let _ = std::fs::remove_dir_all(&dir);
+            if !(o.status == Some(0) || o.status == Some(1)) {
+                fails.push(
+                    Failure::new("abnormal_exit")
+                        .tag("engine=libfuzzer")
+                        .tag(format!("target={}", target))
+                        .tag(format!("mode={}", mode))
+                        .observed(format!("real binary: status {:?} signal {:?}: {}", o.status, o.signal, crate::run::truncate(&o.stderr, 300)))
+                        .expected("exit status 0 or 1")
+                        .case(json!({"fuzz_target": target, "input": text, "source": source, "fuzzer_log_tail": crate::run::truncate(&log, 600)})),
+                );
+                break;
+            }
+        }
+        let reproduced = !fails.is_empty();
+        ctx.single(&format!("c15.fuzz.{}", target), json!({"fuzz_target": target, "input": text}), |stats| {
+            stats.count(if reproduced { "fuzz_crashes_reproduced_with_the_real_binary" } else { "fuzz_crashes_of_the_instrumented_build_only" }, 1);
+            fails
+        });
     }
 }
 
 pub fn run(ctx: &Ctx) {
-    ctx.set_rule("(1) grammar-generated exotic Rust files (generics, lifetimes, where-clauses, impl/dyn, fn pointers, arrays, never, qualified paths, macros, raw and non-ASCII identifiers, attributes with arbitrary-Unicode payloads, malformed validator/serde attributes), 1-3 files per project; (2) real-world corpus: .rs files of /repo and of the vendored dependency sources, verbatim, truncated and with single-character mutations; (3) isolation: the base project plus one unparsable file must generate what the base project generates; (4) a sample through the real binary (exit status 0 or 1), and type graphs with cycles / self-references through the real binary with --visualize-deps; (5, thorough) libFuzzer campaigns on harness/fuzz targets. evaluation = one generation run (project x mode); non-trivial = the input parses as Rust and contains an attribute or a generic type");
+    ctx.set_rule("(1) grammar-generated exotic Rust files (generics, lifetimes, where-clauses, impl/dyn, fn pointers, arrays, never, qualified paths, macros, raw and non-ASCII identifiers, attributes with arbitrary-Unicode payloads, malformed validator/serde attributes), 1-3 files per project; (2) real-world corpus: .rs files of /repo and of the vendored dependency sources, verbatim, truncated and with single-character mutations; (3) isolation: the base project plus one unparsable file must generate what the base project generates; (4) a sample through the real binary (exit status 0 or 1), and type graphs with cycles / self-references through the real binary with --visualize-deps; (5, thorough) libFuzzer campaigns on harness/fuzz targets; a crash artifact counts once the real binary, run on the same input, ends with a status other than 0 or 1 (the instrumented fuzz build exhausts its stack on deeply nested expressions that the shipped binary parses). evaluation = one generation run (project x mode); non-trivial = the input parses as Rust and contains an attribute or a generic type");
     ctx.set_exhaustive(false);
     ctx.assume("termination is observed through generous timeouts; a timeout is inconclusive (exit 2), never a violation");
     let files = corpus_files();
